@@ -2,7 +2,7 @@
    the showdown of hero against one villain holding, the list of villain holdings, the river
    successors of a turn observation, the count list of a list of buckets.  Definitions only. *)
 From Coq Require Import NArith List Bool.
-From RP Require Import Base.Bits Model.Codec Model.Evaluator Model.Equity Spec.SpecCombs.
+From RP Require Import Base.Bits Model.Codec Model.Evaluator Model.Equity Spec.SpecCombs Spec.SpecPoker.
 Import ListNotations.
 Open Scope N_scope.
 
@@ -33,3 +33,11 @@ Definition counts_or_zero (d : deck) (o : obs) : N * N :=
 Definition hist_of (ks : list N) : list (N * N) := fold_left (fun h k => bump k h) ks [].
 (* number of occurrences of k *)
 Definition occurrences (k : N) (ks : list N) : N := N.of_nat (length (filter (N.eqb k) ks)).
+
+(* the two counts of the property text, from the rule book alone (SpecPoker.best5: value of the best
+   five-card sub-hand), hero's value computed once: (#holdings hero beats, #holdings not tied) *)
+Definition spec_counts (d : deck) (o : obs) : N * N :=
+  let hv := SpecPoker.best5 d (hand_cards (hero_hand o)) in
+  let res := map (fun v => N.compare hv (SpecPoker.best5 d (hand_cards (villain_hand o v)))) (holdings d o) in
+  (N.of_nat (length (filter (fun c => match c with Gt => true | _ => false end) res)),
+   N.of_nat (length (filter (fun c => match c with Eq => false | _ => true end) res))).
